@@ -69,13 +69,20 @@ pub fn ops_short(ops: &[Op]) -> String {
 /// Named starting histories ("bases"): the enumerated operations continue
 /// from there, so that depth-5 histories reach graphs with up to 7 nodes.
 pub fn base_ops(base: &str) -> Vec<Op> {
-    let n = match base {
-        "empty" => 0,
-        "b4" => 4,
-        "b7" => 7,
+    let (n, committed) = match base {
+        "empty" => (0, false),
+        "b4" => (4, false),
+        "b7" => (7, false),
+        // the same, followed by a completed flush + load ("committed")
+        "b4c" => (4, true),
+        "b7c" => (7, true),
         other => panic!("unknown base {other}"),
     };
-    (1..=n).map(|id| Op::Insert { id, v: 0 }).collect()
+    let mut ops: Vec<Op> = (1..=n).map(|id| Op::Insert { id, v: 0 }).collect();
+    if committed {
+        ops.push(Op::FlushLoad);
+    }
+    ops
 }
 
 pub const BASES: [&str; 3] = ["empty", "b4", "b7"];
@@ -213,6 +220,17 @@ impl World {
     }
 }
 
+/// One step of the crash recovery the database applies to its vector index.
+#[derive(Clone, Debug, PartialEq)]
+pub enum RecoverStep {
+    /// intent replay: remove by id (a no-op when absent)
+    Remove(u64),
+    /// intent replay: the document still exists, insert its current vector (must succeed)
+    InsertMust(u64, Vec<f32>),
+    /// repair scan: insert an added document, `AlreadyExists` is logged and ignored
+    InsertIgnoreExists(u64, Vec<f32>),
+}
+
 /// What the database does with its vector index after a crash (reopen):
 /// mutation-intent replay (`reconcile_mutation_intents`: every document
 /// updated or removed since the last completed flush is removed from the
@@ -221,7 +239,7 @@ impl World {
 /// `repair_document`: every document added since the checkpoint is inserted,
 /// `AlreadyExists` being logged and ignored). `window` = the operations since
 /// the last completed flush, `current` = the documents as they are now.
-pub fn recover(index: &HnswIndex, vectors: &[[Vec<f32>; 2]], window: &[Op], current: &VecModel, now_ms: u64) -> Result<(), Fail> {
+pub fn recover_plan(vectors: &[[Vec<f32>; 2]], window: &[Op], current: &VecModel) -> Vec<RecoverStep> {
     let mut touched: Vec<u64> = Vec::new();
     let mut has_intent: std::collections::BTreeSet<u64> = Default::default();
     let mut last_variant: std::collections::BTreeMap<u64, u8> = Default::default();
@@ -242,22 +260,35 @@ pub fn recover(index: &HnswIndex, vectors: &[[Vec<f32>; 2]], window: &[Op], curr
             Op::FlushLoad => {}
         }
     }
+    let mut plan = Vec::new();
     // intent replay first
     for id in touched.iter().filter(|id| has_intent.contains(id)) {
-        index.remove(*id, now_ms);
+        plan.push(RecoverStep::Remove(*id));
         if current.live.contains_key(id) {
-            let raw = vectors[(*id - 1) as usize][last_variant[id] as usize].clone();
-            index
-                .insert_f32(*id, raw, now_ms)
-                .map_err(|e| Fail::new("recover_error", format!("re-index of updated document {id} after remove failed: {e}")))?;
+            plan.push(RecoverStep::InsertMust(*id, vectors[(*id - 1) as usize][last_variant[id] as usize].clone()));
         }
     }
     // then the repair scan over the added documents
     for id in touched.iter().filter(|id| !has_intent.contains(id)) {
-        let raw = vectors[(*id - 1) as usize][last_variant[id] as usize].clone();
-        match index.insert_f32(*id, raw, now_ms) {
-            Ok(()) | Err(HnswError::AlreadyExists { .. }) => {}
-            Err(e) => return Err(Fail::new("recover_error", format!("repair insert of added document {id} failed: {e}"))),
+        plan.push(RecoverStep::InsertIgnoreExists(*id, vectors[(*id - 1) as usize][last_variant[id] as usize].clone()));
+    }
+    plan
+}
+
+/// Applies the recovery plan to a bare `HnswIndex`.
+pub fn recover(index: &HnswIndex, vectors: &[[Vec<f32>; 2]], window: &[Op], current: &VecModel, now_ms: u64) -> Result<(), Fail> {
+    for step in recover_plan(vectors, window, current) {
+        match step {
+            RecoverStep::Remove(id) => {
+                index.remove(id, now_ms);
+            }
+            RecoverStep::InsertMust(id, raw) => index
+                .insert_f32(id, raw, now_ms)
+                .map_err(|e| Fail::new("recover_error", format!("re-index of updated document {id} after remove failed: {e}")))?,
+            RecoverStep::InsertIgnoreExists(id, raw) => match index.insert_f32(id, raw, now_ms) {
+                Ok(()) | Err(HnswError::AlreadyExists { .. }) => {}
+                Err(e) => return Err(Fail::new("recover_error", format!("repair insert of added document {id} failed: {e}"))),
+            },
         }
     }
     Ok(())
